@@ -108,7 +108,7 @@ var props = map[string]propCfg{
 		Assumptions: commonAssumptions,
 	},
 	"C04": {
-		Require:      []string{"decodes_compared", "encoder_validated_on_captured_msm_frames", "concurrent_decodes_compared", "frames_decoded_back_to_back", "processes_whose_first_decodes_were_side_by_side"},
+		Require:      []string{"decodes_compared", "encoder_validated_on_captured_msm_frames", "concurrent_decodes_compared", "frames_decoded_back_to_back", "processes_whose_first_decodes_were_side_by_side", "crc_twin_pairs_decoded"},
 		QuickBatches: 8, ThoroughBatches: 64, Parallel: 16, Level: "exploration", Floor: 500,
 		Rule:        "random well-formed MSM4/MSM7 descriptions for all 14 types (cycled): mask shapes empty-satellite, empty-signal, 1x1, 1xk, 64x1, nx1, 32x2, 2x32, nxm with n*m<=64; cell masks all-ones / single one / sparse rows / dense / random; field styles random / all-zero / all-ones / invalid markers and neighbours / zero lock+half+CNR tails; multiple-message flag set only when a cell is present. Each description is encoded by the independent encoder at several padding sizes (0, small, 0..13, up to the 1023-byte limit) and decoded through the decoder package and through handler.GetMessage+Analyse; every exported header, satellite-cell and signal-cell field, the satellite/signal lists, the cell matrix and each cell's (satellite, signal id) attachment are compared with the description, so results at different paddings are compared with each other through it. The encoder itself is validated at every run by reproducing the captured real-receiver MSM frames bit for bit. Non-trivial: >=2 signal cells, or a zero-valued cell field, or >=3 padding bytes. Distinct by hash of (description, paddings).",
 		Assumptions: commonAssumptions,
